@@ -650,3 +650,478 @@ M("c18-wrapper-dispatches", "C18", "_component.py", "C18.R5", "the component wra
   ("from ._context import (\n    Context,\n", "from ._context import (\n    Context,\n    ResourceEvent,\n"))
 M("c18-event-types-single", "C18", "_context.py", "C18.R4", "event carries only the first type",
   ("        self.resource_added.dispatch(ResourceEvent(types_, name, description, False))\n", "        self.resource_added.dispatch(ResourceEvent(types_[:1], name, description, False))\n"))
+
+
+# =============================================================================== C05 / C07 / C14 (component startup)
+_CHILD_BLOCK = '''            async with coalesce_exceptions(), create_task_group() as tg:
+                for alias, child_context in context._child_component_contexts.items():
+                    tg.start_soon(
+                        _start_component,
+                        child_context,
+                        name=(
+                            f"Starting component {child_context.path} "
+                            f"({qualified_name(child_context._component)})"
+                        ),
+                    )
+'''
+M("c05-children-sequential", "C05", "_component.py", "C05.R3", "children are awaited one after another",
+  (_CHILD_BLOCK, '''            for alias, child_context in context._child_component_contexts.items():
+                await _start_component(child_context)
+'''))
+M("c05-children-started-with-start", "C05", "_component.py", "C05.R3", "children started with tg.start (sequential hand-over)",
+  ("                    tg.start_soon(\n                        _start_component,", "                    await tg.start(\n                        _start_component,"), control=False)
+M("c05-start-before-children", "C05", "_component.py", "C05.R2", "start() runs before the children",
+  ('''        # Start the child components, if there are any
+        if context._child_component_contexts:''', '''        # Call start() first
+        if component_class.start is not Component.start:
+            await component.start()
+
+        # Start the child components, if there are any
+        if context._child_component_contexts:'''))
+M("c05-checkpoint-in-spawn-loop", "C05", "_component.py", "C05.R3", "a checkpoint between spawning siblings",
+  ("                for alias, child_context in context._child_component_contexts.items():\n                    tg.start_soon(", "                for alias, child_context in context._child_component_contexts.items():\n                    await sleep(0)\n                    tg.start_soon("))
+M("c05-first-child-only", "C05", "_component.py", "C05.R3", "only the first child is started",
+  ("                for alias, child_context in context._child_component_contexts.items():\n                    tg.start_soon(", "                for alias, child_context in list(context._child_component_contexts.items())[:1]:\n                    tg.start_soon("))
+M("c05-root-starter-spawned", "C05", "_component.py", "C05.R4", "start_component returns before the root has started",
+  ("        await _start_component(root_component_context)\n\n        if tg:\n            tg.cancel_scope.cancel()\n", "        if tg:\n            tg.start_soon(_start_component, root_component_context)\n        else:\n            await _start_component(root_component_context)\n"))
+M("c05-prepare-guard-extra", "C05", "_component.py", "C05.R2", "prepare() skipped for components without children",
+  ("        if component_class.prepare is not Component.prepare:\n", "        if component_class.prepare is not Component.prepare and context._child_component_contexts:\n"))
+M("c05-init-prepares", "C05", "_component.py", "C05.R1", "prepare() is called while the tree is being built",
+  ("    # Merge the overrides to the hard-coded configuration\n", "    component.prepare()\n    # Merge the overrides to the hard-coded configuration\n"), control=False)
+T("c05-twin-values-loop", "C05", "_component.py", "iterate .values() instead of .items()",
+  ("                for alias, child_context in context._child_component_contexts.items():\n", "                for child_context in context._child_component_contexts.values():\n"))
+
+M("c07-swap-phase-literals", "C07", "_component.py", "C07.R1", "prepare failures reported as 'starting'",
+  ('                raise ComponentStartError(\n                    "preparing", context.path, component_class\n                ) from exc\n', '                raise ComponentStartError(\n                    "starting", context.path, component_class\n                ) from exc\n'))
+M("c07-catch-baseexception", "C07", "_component.py", "C07.R1", "start() wrapper catches BaseException (cancellation wrapped)",
+  ('''            try:
+                await coro
+            except Exception as exc:
+                raise ComponentStartError(
+                    "starting", context.path, component_class
+                ) from exc
+''', '''            try:
+                await coro
+            except BaseException as exc:
+                raise ComponentStartError(
+                    "starting", context.path, component_class
+                ) from exc
+'''))
+M("c07-no-cause", "C07", "_component.py", "C07.R1", "the original exception is not chained",
+  ('        raise ComponentStartError("creating", path, component_class) from exc\n', '        raise ComponentStartError("creating", path, component_class) from None\n'))
+M("c07-wrong-path", "C07", "_component.py", "C07.R1", "creating error names the wrong path",
+  ('        raise ComponentStartError("creating", path, component_class) from exc\n', '        raise ComponentStartError("creating", "", component_class) from exc\n'))
+M("c07-children-no-coalesce", "C07", "_component.py", "C07.R2", "child failures surface as exception groups",
+  ("            async with coalesce_exceptions(), create_task_group() as tg:\n", "            async with create_task_group() as tg:\n"))
+M("c07-coalesce-inside-tg", "C07", "_component.py", "C07.R2", "coalesce entered inside the task group",
+  ("            async with coalesce_exceptions(), create_task_group() as tg:\n", "            async with create_task_group() as tg, coalesce_exceptions():\n"))
+M("c07-swallow-child-failure", "C07", "_component.py", "C07.R3", "a failed child does not stop the parent's start()",
+  (_CHILD_BLOCK, "            try:\n" + "".join("    " + l + "\n" if l else "\n" for l in _CHILD_BLOCK.rstrip("\n").split("\n")) + "            except ComponentStartError:\n                logger.exception(\"child failed\")\n"))
+M("c07-children-on-root-group", "C07", "_component.py", "C07.R4", "children spawned on the long-lived root task group",
+  ("                    tg.start_soon(\n                        _start_component,", "                    context._context._task_group.start_soon(\n                        _start_component,"))
+M("c07-watchdog-half-timeout", "C07", "_component.py", "C07.R5", "watchdog sleeps for half the timeout",
+  ("    await sleep(timeout)\n", "    await sleep(timeout / 2)\n"))
+M("c07-watchdog-returns", "C07", "_component.py", "C07.R5", "watchdog logs but does not raise",
+  ('    raise TimeoutError("timeout starting component tree")\n', '    return None\n'))
+M("c07-cancel-before-start", "C07", "_component.py", "C07.R5", "watchdog cancelled before startup finished",
+  ("        await _start_component(root_component_context)\n\n        if tg:\n            tg.cancel_scope.cancel()\n", "        if tg:\n            tg.cancel_scope.cancel()\n\n        await _start_component(root_component_context)\n"))
+M("c07-coalesce-nested-any", "C07", "_utils.py", "C07.R2", "coalesce unwraps groups with several members",
+  ("        if len(excgrp.exceptions) == 1 and not isinstance(\n            excgrp.exceptions[0], ExceptionGroup\n        ):", "        if not isinstance(\n            excgrp.exceptions[0], ExceptionGroup\n        ):"))
+
+M("c14-swap-merge-args", "C14", "_component.py", "C14.R1", "hard-coded values override external configuration",
+  ("    child_components_config = merge_config(\n        component._child_components, child_components_config\n    )\n", "    child_components_config = merge_config(\n        child_components_config, component._child_components\n    )\n"))
+M("c14-f4-inverse", "C14", "_component.py", "C14.R3", "child configuration edited in place (pre-fix F4)",
+  ('''        else:
+            # Work on a copy, so as not to modify the configuration passed by the caller
+            child_config = dict(child_config)
+''', ""))
+M("c14-iterate-hardcoded-only", "C14", "_component.py", "C14.R2", "config-only children are not created",
+  ("    for alias, child_config in child_components_config.items():\n", "    for alias, child_config in (component._child_components or {}).items():\n"))
+M("c14-remap-in-prepare", "C14", "_component.py", "C14.R4", "default names are remapped during prepare() too",
+  ("            context._component_state = ComponentState.preparing\n", "            context._component_state = ComponentState.starting\n"))
+M("c14-remap-any-name", "C14", "_component.py", "C14.R4", "explicitly named resources are remapped",
+  ('        if name == "default" and self._component_state is ComponentState.starting:\n            name = self._default_resource_name\n\n        self._context.add_resource(', '        if self._component_state is ComponentState.starting:\n            name = self._default_resource_name\n\n        self._context.add_resource('))
+M("c14-remap-siblings-disagree", "C14", "_component.py", "C14.R4", "factories are not remapped",
+  ('        if name == "default" and self._component_state is ComponentState.starting:\n            name = self._default_resource_name\n\n        self._context.add_resource_factory(', '        self._context.add_resource_factory('))
+M("c14-suffix-last-slash", "C14", "_component.py", "C14.R4", "default name taken after the LAST slash",
+  ('            child_default_resource_name = alias.split("/", 1)[1]\n', '            child_default_resource_name = alias.rsplit("/", 1)[1]\n'))
+M("c14-state-stays-starting", "C14", "_component.py", "C14.R4", "the component never leaves the starting state",
+  ("        context._component_state = ComponentState.started\n", "        pass\n"))
+M("c14-type-not-defaulted", "C14", "_component.py", "C14.R5", "child type does not default to the alias",
+  ('        child_config.setdefault("type", alias)\n', '        child_config.setdefault("type", None)\n'))
+M("c14-duplicate-alias-overwrites", "C14", "_component.py", "C14.R6", "a duplicate add_component silently replaces the child",
+  ('        elif alias in self._child_components:\n            raise ValueError(f\'there is already a child component named "{alias}"\')\n', ''))
+M("c14-resolver-no-reference", "C14", "_utils.py", "C14.R5", "module:attr references are treated as entry point names",
+  ('        elif ":" in obj:\n            return resolve_reference(obj)\n', ''))
+M("c14-id-ordering", "C14", "_component.py", "C14.R7", "children ordered by id()",
+  ("    for alias, child_config in child_components_config.items():\n", "    for alias, child_config in sorted(child_components_config.items(), key=lambda kv: id(kv[1])):\n"), control=False)
+T("c14-twin-copy-method", "C14", "_component.py", "copy with {**x}",
+  ("            child_config = dict(child_config)\n", "            child_config = {**child_config}\n"))
+T("c14-twin-partition", "C14", "_component.py", "alias suffix via partition",
+  ('            child_default_resource_name = alias.split("/", 1)[1]\n', '            child_default_resource_name = alias.partition("/")[2]\n'))
+
+# =============================================================================== C06
+M("c06-checkpoint-before-subscribe", "C06", "_component.py", "C06.R1", "a checkpoint between the miss and the subscription",
+  ("            # Wait until a matching resource or resource factory is available. The event\n", "            await sleep(0)\n            # Wait until a matching resource or resource factory is available. The event\n"),
+  ("from anyio import create_task_group, sleep\n", "from anyio import create_task_group, sleep\n"))
+M("c06-f7-inverse", "C06", "_component.py", "C06.R7", "bounded wait queue filtered on the consumer side (pre-fix F7)",
+  ('''            async with self._context.resource_added.stream_events(
+                lambda event: event.resource_name == name
+                and type in event.resource_types,
+                max_queue_size=sys.maxsize,
+            ) as events:
+                await events.__anext__()
+''', '''            await self._context.resource_added.wait_event(
+                lambda event: event.resource_name == name
+                and type in event.resource_types,
+            )
+'''))
+M("c06-filter-name-only", "C06", "_component.py", "C06.R3", "the filter ignores the type",
+  ("                lambda event: event.resource_name == name\n                and type in event.resource_types,\n", "                lambda event: event.resource_name == name,\n"))
+M("c06-filter-or", "C06", "_component.py", "C06.R3", "the filter accepts name OR type",
+  ("                lambda event: event.resource_name == name\n                and type in event.resource_types,\n", "                lambda event: event.resource_name == name\n                or type in event.resource_types,\n"))
+M("c06-no-relookup", "C06", "_component.py", "C06.R4", "after the wake-up None is returned",
+  ("            res = await self._context.get_resource(type, name)\n", "            res = None\n"))
+M("c06-optional-waits", "C06", "_component.py", "C06.R5", "optional lookups wait too",
+  ("        if optional:\n            return await self._context.get_resource(type, name, optional=True)\n\n        try:", "        try:"))
+M("c06-dispatch-before-insert", "C06", "_context.py", "C06.R2", "factory registration announced before it is in the table",
+  ('''        resource = ResourceFactory(factory_callback, resource_types, name, description)
+        for type_ in resource_types:
+            self._resource_factories[(type_, name)] = resource
+
+        # Notify listeners that a new resource has been made available
+        self.resource_added.dispatch(
+            ResourceEvent(resource_types, name, description, True)
+        )
+''', '''        # Notify listeners that a new resource has been made available
+        self.resource_added.dispatch(
+            ResourceEvent(resource_types, name, description, True)
+        )
+        resource = ResourceFactory(factory_callback, resource_types, name, description)
+        for type_ in resource_types:
+            self._resource_factories[(type_, name)] = resource
+'''))
+M("c06-subscribe-after-yield", "C06", "_event.py", "C06.R1", "subscription established lazily after a checkpoint in stream_events",
+  ("        for signal in signals:\n            exit_stack.enter_context(signal._subscribe(send))\n", "        await checkpoint()\n        for signal in signals:\n            exit_stack.enter_context(signal._subscribe(send))\n"),
+  ("from anyio import BrokenResourceError, WouldBlock, create_memory_object_stream\n", "from anyio import BrokenResourceError, WouldBlock, create_memory_object_stream\nfrom anyio.lowlevel import checkpoint\n"))
+T("c06-twin-named-filter", "C06", "_component.py", "filter as a nested function",
+  ('''            async with self._context.resource_added.stream_events(
+                lambda event: event.resource_name == name
+                and type in event.resource_types,
+                max_queue_size=sys.maxsize,
+            ) as events:''', '''            def matches(event: Any) -> bool:
+                return event.resource_name == name and type in event.resource_types
+
+            async with self._context.resource_added.stream_events(
+                matches, max_queue_size=sys.maxsize
+            ) as events:'''))
+
+# =============================================================================== C08 / C09
+M("c08-no-wait", "C08", "_context.py", "C08.R2", "the finalizer does not wait for the task",
+  ('            logger.debug("Waiting for service task %r to finish", name)\n            await task_handle.wait_finished()\n', '            logger.debug("Not waiting for service task %r", name)\n'))
+M("c08-cancel-none", "C08", "_context.py", "C08.R1", "teardown_action=None cancels the task",
+  ('''                        logger.exception(
+                            "Error calling teardown callback (%s) for service task %r",
+                            teardown_action_name,
+                            name,
+                        )
+''', '''                        logger.exception(
+                            "Error calling teardown callback (%s) for service task %r",
+                            teardown_action_name,
+                            name,
+                        )
+            else:
+                task_handle.cancel()
+'''))
+M("c08-cancel-after-success", "C08", "_context.py", "C08.R1", "the task is cancelled although the teardown callable succeeded",
+  ("                    if isawaitable(retval):\n                        await retval\n                except BaseException as exc:", "                    if isawaitable(retval):\n                        await retval\n\n                    task_handle.cancel()\n                except BaseException as exc:"))
+M("c08-register-before-start", "C08", "_context.py", "C08.R3", "finalizer registered before the task was started",
+  ('''        task_handle.start_value = await self._task_group.start(
+            run_background_task, func, self, task_handle, name=task_handle.name
+        )
+        self.add_teardown_callback(finalize_service_task)
+''', '''        self.add_teardown_callback(finalize_service_task)
+        task_handle.start_value = await self._task_group.start(
+            run_background_task, func, self, task_handle, name=task_handle.name
+        )
+'''))
+M("c08-finalize-last", "C08", "_context.py", "C08.R3", "finalizer inserted at the bottom of the stack (runs after everything else)",
+  ("        self.add_teardown_callback(finalize_service_task)\n", "        self._teardown_callbacks.insert(0, (finalize_service_task, False))\n"))
+M("c08-event-set-early", "C08", "_concurrent.py", "C08.R4", "finished event set before the task context is torn down",
+  ('''                else:
+                    task_status.started()
+                    await func()
+''', '''                else:
+                    task_status.started()
+                    await func()
+
+                task_handle._finished_event.set()
+'''), control=False)
+M("c08-no-finally", "C08", "_concurrent.py", "C08.R4", "finished event not set when the task crashes",
+  ("    finally:\n        task_handle._finished_event.set()\n", "\n    task_handle._finished_event.set()\n"))
+M("c08-shared-scope", "C08", "_concurrent.py", "C08.R7", "all handles share one cancel scope",
+  ("    _cancel_scope: CancelScope = field(\n        init=False, default_factory=CancelScope, repr=False\n    )\n", "    _cancel_scope: CancelScope = field(init=False, default=_SCOPE, repr=False)\n"),
+  ('logger = logging.getLogger("asphalt.core")\n', 'logger = logging.getLogger("asphalt.core")\n_SCOPE = CancelScope()\n'))
+M("c08-validate-after-spawn", "C08", "_context.py", "C08.R6", "invalid teardown_action detected after the task was spawned",
+  ('''        if (
+            teardown_action != "cancel"
+            and teardown_action is not None
+            and not callable(teardown_action)
+        ):
+            raise ValueError(
+                "teardown_action must be a callable, None, or the string 'cancel'"
+            )
+
+        task_handle = TaskHandle(f"Service task: {name}")
+        task_handle.start_value = await self._task_group.start(
+            run_background_task, func, self, task_handle, name=task_handle.name
+        )
+''', '''        task_handle = TaskHandle(f"Service task: {name}")
+        task_handle.start_value = await self._task_group.start(
+            run_background_task, func, self, task_handle, name=task_handle.name
+        )
+        if (
+            teardown_action != "cancel"
+            and teardown_action is not None
+            and not callable(teardown_action)
+        ):
+            raise ValueError(
+                "teardown_action must be a callable, None, or the string 'cancel'"
+            )
+
+'''))
+M("c09-parent-current", "C09", "_concurrent.py", "C09.R1", "task contexts inherit from the spawner",
+  ("                func, self._ctx, task_handle, exception_handler, task_status=task_status\n", "                func, current_context(), task_handle, exception_handler, task_status=task_status\n"),
+  ("    async def _run_background_task(\n        self,", "    async def _run_background_task(\n        self,"),
+  ('logger = logging.getLogger("asphalt.core")\n', 'logger = logging.getLogger("asphalt.core")\n\n\ndef current_context() -> Any:\n    from ._context import current_context as cc\n\n    return cc()\n'))
+M("c09-remove-not-finally", "C09", "_concurrent.py", "C09.R2", "crashed tasks stay in the handle set",
+  ('''        try:
+            await run_background_task(
+                func, self._ctx, task_handle, exception_handler, task_status=task_status
+            )
+        finally:
+            self._tasks.remove(task_handle)
+''', '''        await run_background_task(
+            func, self._ctx, task_handle, exception_handler, task_status=task_status
+        )
+        self._tasks.remove(task_handle)
+'''))
+M("c09-teardown-cancels", "C09", "_context.py", "C09.R4", "tearing down the factory cancels the running tasks",
+  ("            teardown_action=factory._finished_event.set,\n", '            teardown_action="cancel",\n'))
+M("c09-handler-twice", "C09", "_concurrent.py", "C09.R5", "the handler is consulted twice",
+  ("        if exception_handler is not None and exception_handler(exc):\n            return\n", "        if exception_handler is not None and exception_handler(exc):\n            return\n\n        if exception_handler is not None:\n            exception_handler(exc)\n"))
+M("c09-handler-falsy-swallows", "C09", "_concurrent.py", "C09.R5", "any handler swallows regardless of its verdict",
+  ("        if exception_handler is not None and exception_handler(exc):\n            return\n", "        if exception_handler is not None:\n            exception_handler(exc)\n            return\n"))
+M("c09-soon-no-handler", "C09", "_concurrent.py", "C09.R3", "start_task_soon forgets the exception handler",
+  ('''        self._task_group.start_soon(
+            self._run_background_task,
+            func,
+            task_handle,
+            self.exception_handler,
+            name=task_handle.name,
+        )''', '''        self._task_group.start_soon(
+            self._run_background_task,
+            func,
+            task_handle,
+            name=task_handle.name,
+        )'''))
+M("c09-live-set-exposed", "C09", "_concurrent.py", "C09.R2", "all_task_handles returns the live set",
+  ("        return self._tasks.copy()\n", "        return self._tasks\n"))
+
+# =============================================================================== C10
+M("c10-break-on-full", "C10", "_event.py", "C10.R1", "a full queue stops delivery to the remaining subscribers",
+  ("                    SignalQueueFull,\n                    stacklevel=2,\n                )\n", "                    SignalQueueFull,\n                    stacklevel=2,\n                )\n                break\n"))
+M("c10-no-broken-handler", "C10", "_event.py", "C10.R1", "a finished subscriber makes dispatch raise",
+  ("            except BrokenResourceError:\n                pass\n            except WouldBlock:", "            except WouldBlock:"))
+M("c10-silent-overflow", "C10", "_event.py", "C10.R1", "overflow is silent",
+  ('''            except WouldBlock:
+                warn(
+                    f"Queue full ({stream.statistics().max_buffer_size}) when trying "
+                    f"to send dispatched event to subscriber",
+                    SignalQueueFull,
+                    stacklevel=2,
+                )
+''', "            except WouldBlock:\n                pass\n"))
+M("c10-topic-not-stamped", "C10", "_event.py", "C10.R2", "topic is not stamped",
+  ("        event.topic = self._topic\n", ""))
+M("c10-close-before-unsubscribe", "C10", "_event.py", "C10.R4", "streams closed before the subscriptions are removed",
+  ('''        exit_stack.enter_context(send)
+        exit_stack.enter_context(receive)
+        for signal in signals:
+            exit_stack.enter_context(signal._subscribe(send))
+''', '''        for signal in signals:
+            exit_stack.enter_context(signal._subscribe(send))
+
+        exit_stack.enter_context(send)
+        exit_stack.enter_context(receive)
+'''))
+M("c10-first-signal-only", "C10", "_event.py", "C10.R4", "only the first signal is subscribed",
+  ("        for signal in signals:\n            exit_stack.enter_context(signal._subscribe(send))\n", "        for signal in signals[:1]:\n            exit_stack.enter_context(signal._subscribe(send))\n"))
+M("c10-unfiltered-stream", "C10", "_event.py", "C10.R5", "the raw receive stream is handed out",
+  ("        yield filtered_receive\n", "        yield receive\n"))
+M("c10-filter-negated", "C10", "_event.py", "C10.R5", "events failing the filter are yielded",
+  ("            if filter is None or filter(event):\n", "            if filter is None or not filter(event):\n"))
+M("c10-queue-size-ignored", "C10", "_event.py", "C10.R7", "max_queue_size is ignored",
+  ("    send, receive = create_memory_object_stream[T_Event](max_queue_size)\n", "    send, receive = create_memory_object_stream[T_Event](50)\n"))
+M("c10-wait-event-no-filter", "C10", "_event.py", "C10.R6", "wait_event drops the filter",
+  ("    async with stream_events(signals, filter) as stream:\n", "    async with stream_events(signals) as stream:\n"))
+T("c10-twin-iterate-live-list", "C10", "_event.py", "iterate the live list (dispatch is synchronous: nobody can unsubscribe meanwhile)",
+  ("        for stream in list(self._send_streams):\n", "        for stream in self._send_streams:\n"))
+
+# =============================================================================== C15 / C16 / C19
+M("c15-return-outside-context", "C15", "_runner.py", "C15.R1", "CLI run() awaited after the root context was closed",
+  ('''            if isinstance(component, CLIApplicationComponent):
+                exit_code = await component.run()''', '''        if True:
+            if isinstance(component, CLIApplicationComponent):
+                exit_code = await component.run()'''), control=False)
+M("c15-out-of-range-zero", "C15", "_runner.py", "C15.R2", "out-of-range exit codes give 0",
+  ('                        warn(f"exit code out of range: {exit_code}")\n                        return 1\n', '                        warn(f"exit code out of range: {exit_code}")\n                        return 0\n'))
+M("c15-range-255", "C15", "_runner.py", "C15.R2", "accepted range widened to 255",
+  ("                    if 0 <= exit_code <= 127:\n", "                    if 0 <= exit_code <= 255:\n"))
+M("c15-startup-failure-propagates", "C15", "_runner.py", "C15.R2", "startup failures are re-raised instead of exit status 1",
+  ('                except BaseException:\n                    logger.exception("Error during application startup")\n                    return 1\n', '                except BaseException:\n                    logger.exception("Error during application startup")\n                    raise\n'))
+M("c15-run-exception-swallowed", "C15", "_runner.py", "C15.R2", "a crash in run() is turned into status 1",
+  ("                exit_code = await component.run()\n", "                try:\n                    exit_code = await component.run()\n                except Exception:\n                    return 1\n"))
+M("c15-always-exit", "C15", "_runner.py", "C15.R3", "sys.exit even for status 0",
+  ("    if exit_code := anyio.run(", "    if (exit_code := anyio.run("),
+  ("        backend_options=backend_options,\n    ):\n        sys.exit(exit_code)\n", "        backend_options=backend_options,\n    )) is not None:\n        sys.exit(exit_code)\n"))
+M("c15-wait-inside-startup-scope", "C15", "_runner.py", "C15.R4", "the whole application runs inside the startup cancel scope",
+  ('''            logger.info("Application started")
+
+            if isinstance(component, CLIApplicationComponent):
+                exit_code = await component.run()
+                if isinstance(exit_code, int):
+                    if 0 <= exit_code <= 127:
+                        return exit_code
+                    else:
+                        warn(f"exit code out of range: {exit_code}")
+                        return 1
+                elif exit_code is not None:
+                    warn(
+                        f"run() must return an integer or None, not "
+                        f"{qualified_name(exit_code.__class__)}"
+                    )
+                    return 1
+            else:
+                await event.wait()
+''', '''                logger.info("Application started")
+
+                if isinstance(component, CLIApplicationComponent):
+                    exit_code = await component.run()
+                    if isinstance(exit_code, int):
+                        if 0 <= exit_code <= 127:
+                            return exit_code
+                        else:
+                            warn(f"exit code out of range: {exit_code}")
+                            return 1
+                    elif exit_code is not None:
+                        warn(
+                            f"run() must return an integer or None, not "
+                            f"{qualified_name(exit_code.__class__)}"
+                        )
+                        return 1
+                else:
+                    await event.wait()
+'''))
+M("c15-handler-no-event", "C15", "_runner.py", "C15.R4", "the signal handler forgets to set the shutdown event",
+  ("            startup_scope.cancel()\n            event.set()\n", "            startup_scope.cancel()\n"))
+
+M("c16-swap-file-merge", "C16", "_cli.py", "C16.R2", "earlier files override later ones",
+  ("        config = merge_config(config, config_data)\n", "        config = merge_config(config_data, config)\n"))
+M("c16-swap-service-merge", "C16", "_cli.py", "C16.R2", "top-level keys override the service section",
+  ("    config = merge_config(config, service_config)\n", "    config = merge_config(service_config, config)\n"))
+M("c16-env-over-option", "C16", "_cli.py", "C16.R4", "ASPHALT_SERVICE overrides --service",
+  ('    service = service or os.getenv("ASPHALT_SERVICE")\n', '    service = os.getenv("ASPHALT_SERVICE") or service\n'))
+M("c16-split-every-dot", "C16", "_cli.py", "C16.R3", "escaped dots are split too",
+  ('re.split(r"(?<!\\\\)\\.", key)', 're.split(r"\\.", key)'))
+M("c16-split-last-equals", "C16", "_cli.py", "C16.R3", "value split at the last '='",
+  ('        key, value = override.split("=", 1)\n', '        key, value = override.rsplit("=", 1)\n'))
+M("c16-set-before-files", "C16", "_cli.py", "C16.R1", "--set overrides are applied before the files are merged",
+  ('''    config: dict[str, Any] = {}
+    for path in configfile:
+        config_data = yaml.load(path, AsphaltLoader)
+        assert isinstance(
+            config_data, dict
+        ), "the document root element must be a dictionary"
+        config = merge_config(config, config_data)
+
+''', '''    config: dict[str, Any] = {}
+'''),
+  ('''    services = config.pop("services", {})
+''', '''    for path in configfile:
+        config_data = yaml.load(path, AsphaltLoader)
+        assert isinstance(
+            config_data, dict
+        ), "the document root element must be a dictionary"
+        config = merge_config(config, config_data)
+
+    services = config.pop("services", {})
+'''))
+M("c16-default-before-single", "C16", "_cli.py", "C16.R4", "ladder rows reordered",
+  ('''    elif len(services) == 1:
+        service_config = next(iter(services.values()))
+    elif "default" in services:
+        service_config = services["default"]
+''', '''    elif "default" in services:
+        service_config = services["default"]
+    elif len(services) == 1:
+        service_config = next(iter(services.values()))
+'''), control=False)
+M("c16-legacy-overrides-default", "C16", "_cli.py", "C16.R5", "legacy component key replaces an explicit default service",
+  ('        services.setdefault("default", dict(component=component))\n', '        services["default"] = dict(component=component)\n'))
+M("c16-textfile-bytes", "C16", "_cli.py", "C16.R6", "!TextFile returns bytes",
+  ("    return Path(node.value).read_text()\n", "    return Path(node.value).read_bytes()  # type: ignore[return-value]\n"))
+M("c16-set-plain-loader", "C16", "_cli.py", "C16.R6", "--set values parsed without the custom tags",
+  ("        parsed_value = yaml.load(value, AsphaltLoader)\n", "        parsed_value = yaml.load(value, Loader)\n"))
+
+M("c19-sync-in-async", "C19", "_context.py", "C19.R1", "async resolver uses the sync lookup",
+  ('''                resources[argname] = await ctx.get_resource(
+                    dependency.cls, dependency.name
+                )
+''', '''                resources[argname] = ctx.get_resource_nowait(
+                    dependency.cls, dependency.name
+                )
+'''))
+M("c19-context-at-decoration", "C19", "_context.py", "C19.R1", "current context captured when the decorator is applied",
+  ('''        ctx = current_context()
+        resources: dict[str, Any] = {}
+        for argname, dependency in injected_resources.items():
+            if dependency.optional:
+                resources[argname] = ctx.get_resource_nowait(''', '''        ctx = decoration_ctx
+        resources: dict[str, Any] = {}
+        for argname, dependency in injected_resources.items():
+            if dependency.optional:
+                resources[argname] = ctx.get_resource_nowait('''),
+  ("    forward_refs_resolved = False\n", "    forward_refs_resolved = False\n    decoration_ctx = _current_context.get(None)\n"))
+M("c19-name-ignored", "C19", "_context.py", "C19.R1", "the marker's name is ignored for optional parameters",
+  ('''                resources[argname] = ctx.get_resource_nowait(
+                    dependency.cls, dependency.name, optional=True
+                )''', '''                resources[argname] = ctx.get_resource_nowait(
+                    dependency.cls, optional=True
+                )'''))
+M("c19-wrapper-swapped", "C19", "_context.py", "C19.R2", "coroutine functions get the sync wrapper",
+  ("        if iscoroutinefunction(func):\n            return async_wrapper\n        else:\n            return sync_wrapper\n", "        if not iscoroutinefunction(func):\n            return async_wrapper\n        else:\n            return sync_wrapper\n"))
+M("c19-kwargs-dropped", "C19", "_context.py", "C19.R2", "keyword arguments are dropped by the sync wrapper",
+  ("        return func(*args, **kwargs, **resolve_resources())\n", "        return func(*args, **resolve_resources())\n"))
+M("c19-posonly-accepted", "C19", "_context.py", "C19.R3", "positional-only markers are accepted",
+  ('''            if param.kind is Parameter.POSITIONAL_ONLY:
+                raise TypeError(
+                    f"Cannot inject dependency to positional-only parameter "
+                    f"{param.name!r}"
+                )
+
+''', ""))
+M("c19-default-name", "C19", "_context.py", "C19.R5", "resource() ignores its name",
+  ("    return _Dependency(name)\n", "    return _Dependency()\n"))
+M("c19-union-any-member", "C19", "_context.py", "C19.R4", "multi-member unions take their first member",
+  ('''                if len(args) == 1:
+                    dependency.optional = True
+                    dependency.cls = args[0]
+                else:
+                    raise TypeError(
+                        "Unions are only valid with dependency injection when there "
+                        "are exactly two items and other item is None"
+                    )
+''', '''                dependency.optional = True
+                dependency.cls = args[0]
+'''))
